@@ -117,6 +117,16 @@ var props = []*prop{
 		Fuzz:        &fuzzCfg{Target: "FuzzC01", Seconds: 240},
 	},
 	{
+		ID: "C03", Pkg: "c03", Level: "exploration",
+		Technique:   "property-based testing (rapid) over a specification grammar that is valid by construction, with rule-breaking edits whose documented message class is the expected outcome",
+		LevelText:   "Specifications generated from a typed grammar are accepted in all four configurations (continue-on-errors x strict path uniqueness); 27 kinds of single-rule-breaking edits (0..2 per case) must each produce an error, and with continue-on-errors the edit's own documented message; a control edit that breaks nothing must stay accepted.",
+		LevelNote:   "Trusted: the reading of the documented rules encoded in internal/gen/spec.go and specedit.go (calibrated: unedited documents are accepted by the unchanged library), message classes matched against the exported format constants of spec_messages.go.",
+		Assumptions: trusted,
+		Builds:      plain,
+		Quick:       budget{Shards: 14, Checks: 45, TimeoutS: 600, ShrinkS: 30},
+		Thorough:    budget{Shards: 14, Checks: 700, TimeoutS: 5000, ShrinkS: 60},
+	},
+	{
 		ID: "C06", Pkg: "c06", Level: "exploration",
 		Technique:   "property-based robustness testing (rapid; native coverage-guided go fuzzing of the same property in the thorough tier) with a no-panic / non-nil-result oracle and an allow-list of exactly the documented panic",
 		LevelText:   "Degenerate-friendly schema grammar x derived, random and extreme instances x json.Number x every option subset x three registries x both entry points; each call must return normally with a non-nil result; the only panic accepted is the documented 'Invalid schema provided' one and only when an unresolvable $ref was planted. Exploration (plus coverage-guided fuzzing in thorough) suits an all-inputs crash-freedom claim.",
